@@ -4,6 +4,7 @@ import (
 	"fmt"
 	"go/token"
 	"go/types"
+	"reflect"
 	"sort"
 	"strconv"
 	"strings"
@@ -240,8 +241,51 @@ func kindPrim(kind string) string {
 	return kind
 }
 
+// ruleKindSetsAgree: the reflection encoder and decoder branch on the same set
+// of reflect kinds.  A kind only the encoder handles (an Array written like a
+// list) is skipped by the decoder's switch, which has no default: it consumes
+// nothing and reports success — the value is not recovered, and an input cut
+// inside those bytes is accepted.
+func ruleKindSetsAgree(c *core.Ctx, rule string) {
+	isKind := func(v ssa.Value) bool {
+		cr, _ := core.CallResult(core.StripConv(v))
+		return cr != nil && cr.Call.StaticCallee() != nil && core.FuncKey(cr.Call.StaticCallee()) == "reflect.Value.Kind"
+	}
+	enc := c.Func("type/encoding", "qiEncoder", "value")
+	dec := c.Func("type/encoding", "qiDecoder", "value")
+	if enc == nil || dec == nil {
+		c.Undecided(rule, "type/encoding/kind-sets", token.NoPos, "anchor not found")
+		return
+	}
+	ek, dk := kindCases(enc, isKind), kindCases(dec, isKind)
+	bad := ""
+	var ks []int64
+	for k := range ek {
+		ks = append(ks, k)
+	}
+	for k := range dk {
+		if _, ok := ek[k]; !ok {
+			ks = append(ks, k)
+		}
+	}
+	sort.Slice(ks, func(i, j int) bool { return ks[i] < ks[j] })
+	for _, k := range ks {
+		_, e := ek[k]
+		_, d := dk[k]
+		name := reflect.Kind(k).String()
+		if e && !d {
+			bad = "the encoder has a case for reflect kind " + name + " and the decoder has none: the decoder skips such a field or element without consuming anything and reports success (the value is not recovered; an input cut inside those bytes is accepted)"
+		}
+		if d && !e {
+			bad = "the decoder has a case for reflect kind " + name + " and the encoder has none: the two sides do not handle the same types"
+		}
+	}
+	c.Check(bad == "" && len(ek) >= 14, rule, "type/encoding/kind-sets", dec.Pos(), fmt.Sprintf("encoder and decoder branch on the same %d kinds", len(ek)), bad)
+}
+
 func ruleKindSwitches(c *core.Ctx) {
 	const rule = "C03.kinds"
+	ruleKindSetsAgree(c, rule)
 	for _, side := range []struct{ recv, name, pre string }{{"qiEncoder", "value", "Write"}, {"qiDecoder", "value", "Read"}} {
 		fn := c.Func("type/encoding", side.recv, side.name)
 		if fn == nil {
